@@ -73,6 +73,11 @@ add("C05", "runtime monitor: acceptance oracle (honest by construction) and TS 1
     "All stations share root and AA; the certificate rule is judged in the 'must include' direction; generationTime is compared with the virtual clock within 2 s.",
     "DESIGN.md 3/C05")
 
+add("C04", "runtime monitor: liveness of the real receive loops (RawLinkLayer thread over a scripted socket; CV2X callback loop over a queue) + twin-run equivalence of outputs and state",
+    "Exploration: the real RawLinkLayer.receive thread (socket rebound to a scripted one, one frame handed over at a time) and the real CV2XLinkLayer.callback_handler_loop (missing .so stubbed) feed a real GN router (security off / ENABLED) -> BTP -> CA, DEN and VRU services with and without LDM. Streams of valid traffic (real encoded CAM/VAM/DENM payloads; genuine secured frames) are interleaved with random bytes, grammar-based frames (wrong version, reserved NH/HT/HST/ST, RHL>MHL, zero-sized areas, truncation at every header boundary +-1), bit flips and truncations of real packets, broken security envelopes, secured bit flips/truncations, undecodable or mutated facility payloads, truncated BTP headers, own-MAC and foreign-unicast frames. After every frame the loop thread must be alive and back in recv, nothing but NotImplementedError may be raised into the loop, a bad frame must leave outputs and state untouched, and after every good frame the station is compared with a twin that never saw the header-invalid frames (link-layer sends, GN indications, facility callbacks, LDM content, location table, trust store, CBF/LS buffers, SN).",
+    "Frames whose GN headers a strict reference parser accepts (or whose secured part is authentic) go to both twins; for them only liveness is judged. Wall-clock watchdog 10 s per frame -> inconclusive.",
+    "DESIGN.md 3/C04")
+
 NOT_YET = "check not built yet (work in progress; runtime monitor planned in DESIGN.md section 3)"
 
 def main():
